@@ -1183,6 +1183,10 @@ class VM:
             if key_str == "buffer":
                 # Every typed array has an ArrayBuffer (created on demand)
                 return obj._ensure_buffer()
+            if key_str == "byteLength":
+                return obj.length * obj._element_size
+            if key_str == "byteOffset":
+                return getattr(obj, "_byte_offset", 0) or 0
             # Built-in typed array methods
             typed_array_methods = ["toString", "join", "subarray", "set"]
             if key_str in typed_array_methods:
@@ -1887,10 +1891,23 @@ class VM:
             # TypedArray.set(array, offset)
             source = args[0] if args else UNDEFINED
             offset = to_integer_or_infinity(args[1]) if len(args) > 1 else 0
+            if offset < 0:
+                raise JSRangeError("offset is out of bounds")
+            if source is UNDEFINED or source is NULL:
+                raise JSTypeError("Cannot convert undefined or null to object")
 
+            # The source is any array-like: arrays, typed arrays, strings (their
+            # characters); other values have no elements
             if isinstance(source, (JSArray, JSTypedArray)):
-                for i in range(source.length):
-                    arr.set_index(offset + i, source.get_index(i))
+                values = [source.get_index(i) for i in range(source.length)]
+            elif isinstance(source, str):
+                values = list(source)
+            else:
+                values = []
+            if offset + len(values) > arr.length:
+                raise JSRangeError("offset is out of bounds")
+            for i, value in enumerate(values):
+                arr.set_index(offset + i, value)
             return UNDEFINED
 
         methods = {
